@@ -30,6 +30,14 @@ type SpecEnv struct {
 	inOld    bool
 	defDepth int
 	prev     *State // state at the head of the loop (step clauses)
+	// assuming: the clause being evaluated will be assumed, never checked
+	// (a callee's postcondition at a call site, a precondition at function
+	// entry, an invariant of a value coming from outside). neg counts the
+	// negations / implication antecedents around the current sub-expression.
+	// Together they select the encoding of an equality between pointers to
+	// different symbolic objects (see ptrEq).
+	assuming bool
+	neg      int
 	quiet    bool   // unknown identifiers are not errors (probing)
 }
 
@@ -388,7 +396,10 @@ func (env *SpecEnv) eval(e ast.Expr) Val {
 	case *ast.UnaryExpr:
 		switch n.Op {
 		case token.NOT:
-			return Not(env.evalBool(n.X))
+			env.neg++
+			t := env.evalBool(n.X)
+			env.neg--
+			return Not(t)
 		case token.SUB:
 			t := env.evalTerm(n.X)
 			if t.S == SReal {
@@ -473,7 +484,8 @@ func (env *SpecEnv) binary(n *ast.BinaryExpr) Val {
 			if aok && bok {
 				eq = Eq(at, bt)
 			} else {
-				eq = env.x.valEq(env.cur(), a, b, nil)
+				positive := (env.neg%2 == 0) != (n.Op == token.NEQ)
+				eq = env.ptrEq(a, b, env.assuming && positive)
 			}
 		}
 		if n.Op == token.NEQ {
@@ -779,9 +791,16 @@ func (env *SpecEnv) callExpr(n *ast.CallExpr) Val {
 			return env.x.E.objVal(env.cur(), cv.Obj).(*ChanStore).Cap
 		}
 	case "implies":
-		return Implies(env.evalBool(arg(0)), env.evalBool(arg(1)))
+		env.neg++
+		ante := env.evalBool(arg(0))
+		env.neg--
+		return Implies(ante, env.evalBool(arg(1)))
 	case "iff":
-		return Eq(env.evalBool(arg(0)), env.evalBool(arg(1)))
+		// both polarities: keep the strict encoding (as in a negative position)
+		env.neg++
+		l, r := env.evalBool(arg(0)), env.evalBool(arg(1))
+		env.neg--
+		return Eq(l, r)
 	case "ite":
 		c := env.evalBool(arg(0))
 		a, b := env.evalTerm(arg(1)), env.evalTerm(arg(2))
@@ -914,7 +933,11 @@ func (env *SpecEnv) callExpr(n *ast.CallExpr) Val {
 		if fn, ok := fv.Fn.(*ssa.Function); ok {
 			return Bool(strings.Contains(fn.String(), want))
 		}
-		return TFalse
+		// an unknown function value (e.g. a callee's fresh result): neither
+		// provable nor refutable — in particular not "false", which, assumed
+		// under an implication, would silently refute the implication's condition
+		env.x.E.nextObj++
+		return Var(fmt.Sprintf("funcis!%d", env.x.E.nextObj), SBool)
 	case "cancelled":
 		if v, ok := env.cur().ghost["cancelled"].(*Term); ok {
 			return v
@@ -1237,8 +1260,71 @@ func (env *SpecEnv) assumeEnsures(e ast.Expr, ret Val, sig *types.Signature) Val
 			}
 		}
 	}
-	env.s.assume(env.evalBool(e))
+	env.s.assume(env.evalAssumed(e))
 	return ret
+}
+
+// evalAssumed evaluates a clause that is going to be assumed.
+func (env *SpecEnv) evalAssumed(e ast.Expr) *Term {
+	was := env.assuming
+	env.assuming = true
+	t := env.evalBool(e)
+	env.assuming = was
+	return t
+}
+
+// ptrEq: equality of two reference values in a contract clause.
+//
+// Two pointers to different symbolic objects are "equal only if both are nil"
+// (valEq: symbolic objects are assumed not to alias). That is the right,
+// conservative reading where the clause is checked, and wherever an assumed
+// clause mentions the equality negatively. But where an assumed clause states
+// the equality positively — a callee's postcondition "result.Content ==
+// rawLine" — the two objects are one in the real execution, and "both nil"
+// contradicts whatever is known about either: every path after the call would
+// be infeasible and everything on it proved vacuously. There the equality is
+// read as what it implies for two aliases: the same nil-ness and, if not nil,
+// the same contents now. (Later writes through one name are still not seen
+// through the other: the non-aliasing assumption, listed in the evidence.)
+func (env *SpecEnv) ptrEq(a, b Val, assumedPositively bool) *Term {
+	x, s := env.x, env.cur()
+	strict := x.valEq(s, a, b, nil)
+	if !assumedPositively {
+		return strict
+	}
+	p, ok1 := a.(*PtrV)
+	q, ok2 := b.(*PtrV)
+	if !ok1 || !ok2 || p.Obj == nil || q.Obj == nil || p.Obj == q.Obj {
+		return strict
+	}
+	same := TTrue
+	func() {
+		defer func() {
+			if recover() != nil {
+				same = TTrue
+			}
+		}()
+		pv, qv := x.load(s, p), x.load(s, q)
+		pa, okA := pv.(*AbsV)
+		qa, okB := qv.(*AbsV)
+		switch {
+		case okA && okB:
+			// abstract library objects (bytes.Buffer, …): their ghost fields
+			var cs []*Term
+			for k, fv := range pa.F {
+				ft, ok := fv.(*Term)
+				gt, ok2 := qa.F[k].(*Term)
+				if ok && ok2 && ft.S.Eq(gt.S) {
+					cs = append(cs, Eq(ft, gt))
+				}
+			}
+			same = And(cs...)
+		case pv != nil && qv != nil:
+			same = x.valEq(s, pv, qv, nil)
+		}
+	}()
+	x.E.assumeNote("a positively assumed equality of two pointers to different symbolic objects is read as: same nil-ness and equal contents at that point")
+	return Or(And(p.Nil, q.Nil), And(Not(p.Nil), Not(q.Nil), same))
 }
 
 func isRefVal(v Val) bool {
